@@ -276,7 +276,7 @@ func (n *RootNode) Remove(ctx context.Context, req *fuse.RemoveRequest) (err err
 			return syscall.ENOENT
 		}
 		if err := db.Drop(ctx); err != nil {
-			return err
+			return ToError(err)
 		}
 
 		// Notify the file system that the associated files have been deleted.
